@@ -239,7 +239,10 @@ def run(check):
     counters = process_results(check, obs, known)
     check.extra_cov["phase_seconds"].update({"build_obligations": round(t3 - t2, 1), "emit_and_solve": round(t4 - t3, 1),
                                              "classify_and_replay": round(time.time() - t4, 1)})
+    slow = sorted([(round(ob.secs, 1), ob.name, ob.route) for ob in check.obs if ob.secs > 5], reverse=True)[:8]
+    check.extra_cov["slowest_obligations"] = slow
     if os.environ.get("AUV_VERBOSE"):
+        print("slowest:", slow)
         print("phases:", check.extra_cov["phase_seconds"], "compile", check.stats["compile_s"], "native", check.stats["native_build_s"])
     return counters
 
